@@ -265,3 +265,18 @@ Definition wf_doc (cfg : rcfg) (d : doc) : bool :=
   end.
 Definition doc_height (d : doc) : N :=
   N.max (height (d_top d)) (if existsb (fun it => match it with TopRecType _ _ _ => true | _ => false end) (d_pre d) then 1 else 0).
+
+(* the (array type, announced bytes) pair a chunked array is in after an event *)
+Definition chunk_step (e : event) (st : arrty * N) : arrty * N :=
+  match e with
+  | EArrayBegin t' => (t', 0)
+  | EMediaBegin _ => (AT_Media, 0)
+  | ECustomBegin t' _ => (t', 0)
+  | EArrayChunk n _ => (fst st, if n =? 0 then snd st else (snd st + chunk_bytes (fst st) n) mod two64)
+  | _ => st
+  end.
+Definition chunk_state (st : arrty * N) (es : list event) : arrty * N := fold_left (fun s e => chunk_step e s) es st.
+
+(* all six measures *)
+Definition within_limits_full (cfg : rcfg) (es : list event) : Prop :=
+  within_limits cfg es /\ length_ok cfg (chunked_array_usage es) = true.
